@@ -82,13 +82,31 @@ def sx_term(t, ids: _LitIds) -> str:
         return f"(index {sx_term(t[1], ids)} {t[2]})"
     if t[0] == "flatten":
         return f"(flatten {sx_term(t[1], ids)})"
+    if t[0] == "subq":
+        sid = ids.next()
+        return f"(subq {sid} {VAR_IDS[t[1]]}" + (f" {sx_cond(t[2], ids)}" if t[2] is not None else "") + ")"
     raise ValueError(t)
+
+
+def has_subq(c) -> bool:
+    if c is None:
+        return False
+    if c[0] == "cmp":
+        return c[2][0] == "subq" or c[3][0] == "subq"
+    if c[0] in ("and", "or"):
+        return has_subq(c[1]) or has_subq(c[2])
+    if c[0] in ("not",):
+        return has_subq(c[1])
+    if c[0] in ("exists", "forall"):
+        return has_subq(c[2])
+    return False
 
 
 def sx_cond(c, ids: _LitIds) -> str:
     k = c[0]
     if k == "cmp":
-        return f"(cmp {c[1]} {sx_term(c[2], ids)} {sx_term(c[3], ids)})"
+        head = "cmpx" if (c[2][0] == "subq" or c[3][0] == "subq") else "cmp"
+        return f"({head} {c[1]} {sx_term(c[2], ids)} {sx_term(c[3], ids)})"
     if k == "contains":
         return f"(contains {sx_term(c[1], ids)} {sx_term(c[2], ids)})"
     if k == "truth":
@@ -116,7 +134,7 @@ def sx_query(q) -> str:
         parts.append("(sub" + "".join(f" ({a} {b})" for a, b in q["sub"]) + ")")
     parts.append("(doms" + "".join(
         f" ({VAR_IDS[n]}{''.join(' ' + sx_val(v) for v in d)})" for n, d in q["doms"].items()) + ")")
-    return "(q " + " ".join(parts) + ")"
+    return ("(qx " if has_subq(q["cond"]) else "(q ") + " ".join(parts) + ")"
 
 
 # ------------------------------------------------------------------------------------------------ parsing back
@@ -167,12 +185,14 @@ def _p_term(s):
         return ("index", _p_term(s[1]), int(s[2]))
     if s[0] == "flatten":
         return ("flatten", _p_term(s[1]))
+    if s[0] == "subq":
+        return ("subq", _ID_VARS[int(s[2])], _p_cond(s[3]) if len(s) > 3 else None)
     raise ValueError(s)
 
 
 def _p_cond(s):
     k = s[0]
-    if k == "cmp":
+    if k in ("cmp", "cmpx"):
         return ("cmp", s[1], _p_term(s[2]), _p_term(s[3]))
     if k == "contains":
         return ("contains", _p_term(s[1]), _p_term(s[2]))
@@ -191,7 +211,7 @@ def _p_cond(s):
 
 def parse_query(line: str):
     s = parse_sexp(line)
-    assert s[0] == "q"
+    assert s[0] in ("q", "qx")
     q = {"sel": [], "cond": None, "objs": [], "doms": {}}
     for part in s[1:]:
         if part[0] == "sel":
@@ -297,6 +317,8 @@ def build_query(q, V, objs, quantification=None):
             return term(t[1])[t[2]]
         if t[0] == "flatten":
             return flatten(term(t[1]))
+        if t[0] == "subq":
+            return an(entity(V[t[1]], cond(t[2]))) if t[2] is not None else an(entity(V[t[1]]))
         raise ValueError(t)
 
     def cond(c):
@@ -365,7 +387,26 @@ def o_terms(t, sigma, objs) -> list:
         return [x[t[2]] for x in o_terms(t[1], sigma, objs)]
     if t[0] == "flatten":
         return [y for x in o_terms(t[1], sigma, objs) for y in x]
+    if t[0] == "subq":
+        return [sigma[t[1]]]
     raise ValueError(t)
+
+
+def o_restrictions_ok(c, sigma, q, objs) -> bool:
+    """every sub-query operand restricts its variable to the sub-query's answers, whatever the polarity"""
+    k = c[0]
+    if k == "cmp":
+        return o_subq_ok(c[2], sigma, q, objs) and o_subq_ok(c[3], sigma, q, objs)
+    if k in ("and", "or"):
+        return o_restrictions_ok(c[1], sigma, q, objs) and o_restrictions_ok(c[2], sigma, q, objs)
+    if k == "not":
+        return o_restrictions_ok(c[1], sigma, q, objs)
+    return True
+
+
+def o_subq_ok(t, sigma, q, objs) -> bool:
+    """first-order reading of a sub-query operand: its own condition must hold for the assignment"""
+    return t[0] != "subq" or t[2] is None or o_sat(t[2], sigma, q, objs)
 
 
 def o_term(t, sigma, objs):
@@ -409,6 +450,8 @@ def t_vars(t) -> List[str]:
         return [t[1]]
     if t[0] == "lit":
         return []
+    if t[0] == "subq":
+        return [t[1]] + (c_free(t[2]) if t[2] is not None else [])
     return t_vars(t[1])
 
 
@@ -465,7 +508,7 @@ def oracle_rows(q) -> List[str]:
     rows = []
     for combo in itertools.product(*doms):
         sigma = dict(zip(vs, combo))
-        if q["cond"] is None or o_sat(q["cond"], sigma, q, objs):
+        if q["cond"] is None or (o_restrictions_ok(q["cond"], sigma, q, objs) and o_sat(q["cond"], sigma, q, objs)):
             rows.append(show_row(tuple(o_term(t, sigma, objs) for t in q["sel"])))
     return rows
 
@@ -589,6 +632,56 @@ def gen_query(rnd, falsy=True, max_depth=3, quantifiers=True):
     q = {"sel": sel, "cond": cond, "objs": objs, "doms": {n: d for n, d in doms.items() if n in keep},
          "kinds": {n: k for n, k in kinds.items() if n in keep}}
     return q
+
+
+def gen_subquery_query(rnd):
+    """a comparison with a nested sub-query operand `an(entity(y, C(y)))`, alone or combined with plain atoms over the
+    outer (object) variables; the sub-query's variable is an int or object variable whose domain may hold falsy values"""
+    outer = ["x"] if rnd.random() < 0.6 else ["x", "z"]
+    kinds = {v: "obj" for v in outer}
+    ykind = "int" if rnd.random() < 0.7 else "obj"
+    kinds["y"] = ykind
+    nobj = rnd.randrange(1, 4)
+    objs = [{"cls": 0, "veq": False, "fields": {"a": rnd.randrange(0, 4), "f": rnd.random() < 0.5,
+                                                 "items": [rnd.randrange(0, 3) for _ in range(rnd.randrange(0, 3))],
+                                                 "m_dbl": 0}} for _ in range(nobj)]
+    for o in objs:
+        o["fields"]["m_dbl"] = 2 * o["fields"]["a"]
+    doms = {v: [("obj", i) for i in range(nobj) if rnd.random() < 0.85] for v in outer}
+    doms["y"] = (sorted(rnd.sample(range(0, 4), rnd.randrange(1, 4))) if ykind == "int"
+                 else [("obj", i) for i in range(nobj) if rnd.random() < 0.85])
+    yt = ("var", "y") if ykind == "int" else ("attr", ("var", "y"), "a")
+    subcond = None if rnd.random() < 0.3 else ("cmp", rnd.choice(list(OPS)), yt, ("lit", rnd.randrange(0, 3)))
+    sub = ("subq", "y", subcond)
+    xv = rnd.choice(outer)
+    other = ("attr", ("var", xv), "a") if ykind == "int" or rnd.random() < 0.5 else ("var", xv)
+    if other[0] == "var":
+        op = rnd.choice(["eq", "ne"])
+    else:
+        op = rnd.choice(list(OPS)) if ykind == "int" else rnd.choice(["eq", "ne"])
+        if ykind == "obj":
+            other = ("var", xv)
+    atom = ("cmp", op, sub, other) if rnd.random() < 0.35 else ("cmp", op, other, sub)
+    def plain():
+        v = rnd.choice(outer)
+        return rnd.choice([("cmp", rnd.choice(list(OPS)), ("attr", ("var", v), "a"), ("lit", rnd.randrange(1, 3))),
+                           ("truth", ("attr", ("var", v), "f"))])
+    r = rnd.random()
+    if r < 0.35:
+        cond = atom
+    elif r < 0.55:
+        cond = ("and", plain(), atom)
+    elif r < 0.7:
+        cond = ("and", atom, plain())
+    elif r < 0.85:
+        cond = ("not", atom)
+    else:
+        cond = ("and", plain(), ("not", atom))
+    selv = rnd.sample(outer + ["y"], rnd.randrange(1, len(outer) + 2))
+    used = set(c_allvars(cond)) | set(selv)
+    return {"sel": [("var", v) for v in selv], "cond": cond, "objs": objs,
+            "doms": {n: d for n, d in doms.items() if n in used}, "kinds": {n: k for n, k in kinds.items() if n in used},
+            "force_set_of": len(selv) > 1}
 
 
 def cond_ops(c, acc=None) -> List[str]:
